@@ -2,27 +2,32 @@
 //! argument order, and never a stronger claim than the candidates support.
 //!
 //! A class fixes the kind of each candidate (Unique / Definite / Suggested / Unknown) and the
-//! shape of its substitution (identity `[^0.0]` or ground `[Foreign id]`) and constraints (none /
-//! one); ids are symbolic. All 8 x 8 kind/shape pairs are run (one harness per left candidate).
+//! shape of its substitution (identity `[^0.0]` or ground `[Foreign id]`), constraints (none /
+//! one) and, for two ground candidates, whether their ids agree. All 9 x 9 ordered pairs of kinds
+//! are run, one query each (two for ground/ground pairs); the binder universe is symbolic.
 
 use chalk_ir::*;
 use chalk_solve::solve::{Guidance, Solution};
 use vinterner::gen::*;
 use vinterner::*;
 
-fn binders() -> CanonicalVarKinds<VI> {
+fn binders(ui: usize) -> CanonicalVarKinds<VI> {
     CanonicalVarKinds::from1(
         I,
-        WithKind::new(VariableKind::Ty(TyVariableKind::General), UniverseIndex::ROOT),
+        WithKind::new(VariableKind::Ty(TyVariableKind::General), UniverseIndex { counter: ui }),
     )
 }
-fn canon_subst(identity: bool) -> Canonical<Substitution<VI>> {
-    let t = if identity {
+/// `id == 0`: the identity substitution `[^0.0]`; otherwise the ground substitution
+/// `[Foreign(id)]`. Ids are concrete per class: `combine` depends on the candidates only through
+/// equalities, so the classes (same id / different ids) are a complete case split, and reading
+/// symbolic ids back out of `Solution` (a widest-variant read, DESIGN.md §2.2a) does not finish.
+fn canon_subst(id: u64, ui: usize) -> Canonical<Substitution<VI>> {
+    let t = if id == 0 {
         ty(TyKind::BoundVar(BoundVar::new(DebruijnIndex::INNERMOST, 0)))
     } else {
-        foreign(sym::u64())
+        foreign(id)
     };
-    Canonical { value: subst(&[ga_ty(t)]), binders: binders() }
+    Canonical { value: subst(&[ga_ty(t)]), binders: binders(ui) }
 }
 fn constraints(one: bool) -> Constraints<VI> {
     if one {
@@ -38,21 +43,21 @@ fn constraints(one: bool) -> Constraints<VI> {
 
 /// candidate kinds: 0 Unique(identity, no constraints) = "trivially true"; 1 Unique(identity, one
 /// constraint); 2 Unique(ground); 3 Definite(identity); 4 Definite(ground); 5 Suggested(ground);
-/// 6 Suggested(identity); 7 Unknown
-pub const N_KINDS: usize = 8;
-fn mk(kind: usize) -> Solution<VI> {
+/// 6 Suggested(identity); 7 Unknown; 8 Unique(ground, one constraint)
+pub const N_KINDS: usize = 9;
+fn mk(kind: usize, id: u64, ui: usize) -> Solution<VI> {
     match kind {
-        0 | 1 | 2 => {
-            let cs = canon_subst(kind != 2);
+        0 | 1 | 2 | 8 => {
+            let cs = canon_subst(if kind == 2 || kind == 8 { id } else { 0 }, ui);
             Solution::Unique(Canonical {
-                value: ConstrainedSubst { subst: cs.value, constraints: constraints(kind == 1) },
+                value: ConstrainedSubst { subst: cs.value, constraints: constraints(kind == 1 || kind == 8) },
                 binders: cs.binders,
             })
         }
-        3 => Solution::Ambig(Guidance::Definite(canon_subst(true))),
-        4 => Solution::Ambig(Guidance::Definite(canon_subst(false))),
-        5 => Solution::Ambig(Guidance::Suggested(canon_subst(false))),
-        6 => Solution::Ambig(Guidance::Suggested(canon_subst(true))),
+        3 => Solution::Ambig(Guidance::Definite(canon_subst(0, ui))),
+        4 => Solution::Ambig(Guidance::Definite(canon_subst(id, ui))),
+        5 => Solution::Ambig(Guidance::Suggested(canon_subst(id, ui))),
+        6 => Solution::Ambig(Guidance::Suggested(canon_subst(0, ui))),
         _ => Solution::Ambig(Guidance::Unknown),
     }
 }
@@ -65,9 +70,10 @@ fn definite_part(s: &Solution<VI>) -> Option<Canonical<Substitution<VI>>> {
     }
 }
 
-fn check(ka: usize, kb: usize) {
-    let a = mk(ka);
-    let b = mk(kb);
+fn check(ka: usize, ida: u64, kb: usize, idb: u64) {
+    let ui = sym::usize(); // both candidates are canonical over the same binders
+    let a = mk(ka, ida, ui);
+    let b = mk(kb, idb, ui);
     let ab = a.clone().combine(b.clone(), I);
     let ba = b.clone().combine(a.clone(), I);
     assert!(ab == ba, "C13/C17: Solution::combine depends on the argument order");
@@ -95,29 +101,30 @@ fn check(ka: usize, kb: usize) {
         }
         Solution::Ambig(Guidance::Unknown) => {}
     }
-    if ka == kb {
+    if ka == kb && ida == idb {
         // idempotence
         assert!(a.clone().combine(a.clone(), I) == a, "C17: combine(a, a) != a");
     }
 }
 
-fn pair(ka: usize, kb: usize) {
-    check(ka, kb);
+fn pair(ka: usize, ida: u64, kb: usize, idb: u64) {
+    check(ka, ida, kb, idb);
     cover!(true);
 }
 
 macro_rules! pairs {
-    ($($name:ident: $a:expr, $b:expr;)*) => {$(
-        vharness!($name, 6, { pair($a, $b) });
+    ($($name:ident: $a:expr, $ia:expr, $b:expr, $ib:expr;)*) => {$(
+        vharness!($name, 6, { pair($a, $ia, $b, $ib) });
     )*};
 }
 include!("c13_pairs.rs");
 
 // both outcomes of the interesting comparison are reachable
 vharness!(c13_q_combine_witness, 6, {
-    let a = mk(4);
-    let b = mk(4);
-    let ab = a.combine(b, I);
-    cover!(matches!(ab, Solution::Ambig(Guidance::Definite(_))));
-    cover!(matches!(ab, Solution::Ambig(Guidance::Unknown)));
+    let ui = sym::usize();
+    let same = mk(4, 1, ui).combine(mk(4, 1, ui), I);
+    let diff = mk(4, 1, ui).combine(mk(4, 2, ui), I);
+    assert!(matches!(same, Solution::Ambig(Guidance::Definite(_))));
+    assert!(matches!(diff, Solution::Ambig(Guidance::Unknown)));
+    cover!(true);
 });
